@@ -669,6 +669,15 @@ class AEval(dtable.Eval):
         if p in ("write", "writeln") and "args" in e and len(e["args"]) >= 2:
             f = self.ex(e["args"][1], env)
             vals = [self.ex(a, env) for a in e["args"][2:]]
+            tgt = e["args"][0]
+            while is_node(tgt) and tgt["k"] in ("Paren", "Unary", "Ref"):
+                tgt = tgt["expr"]
+            if is_node(tgt) and tgt["k"] == "Path" and tgt["path"] in env and env[tgt["path"]][0] == "str" and f[0] == "str":
+                # writing into a String variable: the text is appended to it, in order with its other pushes
+                vals = [("float", v[1][6:]) if v[0] == "atom" and v[1].startswith("float:") else v for v in vals]
+                env[tgt["path"]] = ("str", env[tgt["path"]][1] + dtable.render([("fmt", f, tuple(vals))]) + ("\n" if p == "writeln" else ""))
+                self._note_assigned(tgt["path"])
+                return C("Ok", UNIT)
             self.out.append(("fmt", f, tuple(vals)))
             return C("Ok", UNIT)
         if p == "vec" and "args" in e:
